@@ -272,7 +272,7 @@ def run_controlled(ctx, props, quick=120, thorough=4000):
             spec['init']['speed'] = gen.in_unit(rng, 'AngularSpeed', abs(sif('AngularSpeed', spec['init']['speed'])) * 0.1, True)
         elif focus < 0.4 and spec['motor']['i0'] is not None:
             spec['rules'] = [{'type': 'prop', 'enc': rng.randrange(len(spec['elems']) + 1),
-                              'target': gen.in_unit(rng, 'AngularPosition', rng.uniform(1, 50), True),
+                              'target': gen.in_unit(rng, 'AngularPosition', rng.uniform(1, 50) if rng.random() < 0.7 else -rng.uniform(0.5, 20), True),
                               'mult': rng.uniform(1.1, 4), 'pmin': 0.2}]
         elif focus < 0.55:
             spec['rules'] = [{'type': 'reach', 'enc': rng.randrange(len(spec['elems']) + 1),
